@@ -35,7 +35,7 @@ def matchesBody : Ss :=
         (.ret (Es.ofList [.tt]))]) .nil),
       (.ifS .nil (.bin .land (.bin .eq (.var "k.ShiftedCode") (.var "key")) (.bin .eq (.var "unshiftedkMods") (.var "unshiftedMods"))) (Ss.ofList [
         (.ret (Es.ofList [.tt]))]) .nil)]) .nil),
-    (.ifS .nil (.bin .land (.bin .ne (.bin .band (.var "mods") (.var "ModShift")) (.int 0)) (.call "unicode.IsLower" (Es.ofList [(.var "key")]))) (Ss.ofList [
+    (.ifS .nil (.bin .land (.bin .land (.bin .ne (.bin .band (.var "mods") (.var "ModShift")) (.int 0)) (.call "unicode.IsLower" (Es.ofList [(.var "key")]))) (.bin .ne (.call "unicode.ToUpper" (Es.ofList [(.var "key")])) (.var "key"))) (Ss.ofList [
       (.assign .set (Es.ofList [(.var "key")]) (Es.ofList [(.call "unicode.ToUpper" (Es.ofList [(.var "key")]))])),
       (.ifS .nil (.bin .land (.bin .eq (.var "k.Text") (.call "string" (Es.ofList [(.var "key")]))) (.bin .eq (.var "unshiftedMods") (.var "unshiftedkMods"))) (Ss.ofList [
         (.ret (Es.ofList [.tt]))]) .nil)]) .nil),
@@ -234,7 +234,9 @@ def decodeKeyBody : Ss :=
                   (.assign .addSet (Es.ofList [(.var "key.Text")]) (Es.ofList [(.call "string" (Es.ofList [(.call "rune" (Es.ofList [(.var "p")]))]))]))]))]))]))]))]))]))])),
     (.assign .define (Es.ofList [(.var "nmods")]) (Es.ofList [(.bin .andNot (.var "key.Modifiers") (.bin .bor (.var "ModCapsLock") (.var "ModNumLock")))])),
     (.ifS .nil (.bin .land (.bin .land (.bin .eq (.var "key.Text") (.str [])) (.bin .eq (.var "nmods") (.var "ModShift"))) (.call "unicode.IsPrint" (Es.ofList [(.var "key.Keycode")]))) (Ss.ofList [
-      (.assign .set (Es.ofList [(.var "key.Text")]) (Es.ofList [(.call "string" (Es.ofList [(.call "unicode.ToUpper" (Es.ofList [(.var "key.Keycode")]))]))]))]) .nil),
+      (.ifS .nil (.call "unicode.IsPrint" (Es.ofList [(.var "key.ShiftedCode")])) (Ss.ofList [
+        (.assign .set (Es.ofList [(.var "key.Text")]) (Es.ofList [(.call "string" (Es.ofList [(.var "key.ShiftedCode")]))]))]) (Ss.ofList [
+        (.assign .set (Es.ofList [(.var "key.Text")]) (Es.ofList [(.call "string" (Es.ofList [(.call "unicode.ToUpper" (Es.ofList [(.var "key.Keycode")]))]))]))]))]) .nil),
     (.ret (Es.ofList [(.var "key")]))])
 
 /-- Number of nodes the extractor could not translate. -/
